@@ -2,6 +2,8 @@ import TongoProofs.Lemmas.Wallet
 import TongoProofs.Lemmas.CellOrdSpec
 import TongoGen.WalletV5Id
 import TongoProofs.Lemmas.GenTiesB
+import TongoGen.WalletInts
+import TongoProofs.Lemmas.GenTiesWallet
 import TongoModel.WalletSeed
 /-! Property C15 — wallet address and send parameters follow from key, version and chain state.
 
@@ -406,6 +408,40 @@ theorem gen_walletIdV5R1 (o : Opts) (hw : -(2 : Int) ^ 63 ≤ o.wc ∧ o.wc < 2 
     (hn : -(2 : Int) ^ 31 ≤ o.netOr ∧ o.netOr < 2 ^ 31) :
     (Gen.WalletV5Id.walletID (BitVec.ofInt 64 o.wc) (BitVec.ofInt 64 o.netOr)).toNat = walletIdV5R1 o :=
   GenTies.gen_walletIdV5R1 o hw hn
+
+/-! ### the default sub-wallet id of v3 / v4 / highload wallets: regenerated Go code against the model -/
+
+/-- tie (X4, regenerated from wallet/wallet_v3.go): the Go expression `uint32(DefaultSubWallet+workchain)` of
+`newWalletV3` (workchain a Go `int`, i.e. `BitVec 64`; wrapping add, truncation to 32 bits), translated on every run
+(`Gen.WalletInts.subWalletDefaultV3`), equals the model's `toU32 (defaultSubWallet + wc)` for every `int64` workchain. -/
+theorem gen_subWalletDefault (wc : Int) (h : -(2 : Int) ^ 63 ≤ wc ∧ wc < 2 ^ 63) :
+    (Gen.WalletInts.subWalletDefaultV3 (BitVec.ofInt 64 wc)).toNat = Wallet.toU32 (Wallet.defaultSubWallet + wc) :=
+  GenTies.gen_subWalletDefault wc h
+
+/-- tie (X4, regenerated from wallet/wallet_v4.go): the same expression in `newWalletV4`. -/
+theorem gen_subWalletDefaultV4 (wc : Int) (h : -(2 : Int) ^ 63 ≤ wc ∧ wc < 2 ^ 63) :
+    (Gen.WalletInts.subWalletDefaultV4 (BitVec.ofInt 64 wc)).toNat = Wallet.toU32 (Wallet.defaultSubWallet + wc) :=
+  GenTies.gen_subWalletDefaultV4 wc h
+
+/-- tie (X4, regenerated from wallet/wallet_highload_v2.go): the same expression in `newWalletHighloadV2`. -/
+theorem gen_subWalletDefaultHighload (wc : Int) (h : -(2 : Int) ^ 63 ≤ wc ∧ wc < 2 ^ 63) :
+    (Gen.WalletInts.subWalletDefaultHighload (BitVec.ofInt 64 wc)).toNat
+      = Wallet.toU32 (Wallet.defaultSubWallet + wc) :=
+  GenTies.gen_subWalletDefaultHighload wc h
+
+/-- tie (X4, regenerated from wallet/wallet_v3.go, wallet_v4.go, wallet_highload_v2.go): without an explicit
+`SubWalletID` option, the `Opts.subDefault` that `dataBitsSeq` stores in the v3 / v4 / highload data cell (and that
+`identFields` compares) is the regenerated Go expression on the options' workchain. -/
+theorem gen_subDefault (o : Opts) (h : o.subWallet = none) (hw : -(2 : Int) ^ 63 ≤ o.wc ∧ o.wc < 2 ^ 63) :
+    Opts.subDefault o = (Gen.WalletInts.subWalletDefaultV3 (BitVec.ofInt 64 o.wc)).toNat :=
+  GenTies.gen_subDefault o h hw
+
+/-- tie (X4, regenerated from wallet/wallet_v4.go, wallet_highload_v2.go): the three regenerated constructors compute
+the same function (the Go expressions have the same text). -/
+theorem gen_subWalletDefault_same :
+    Gen.WalletInts.subWalletDefaultV4 = Gen.WalletInts.subWalletDefaultV3 ∧
+      Gen.WalletInts.subWalletDefaultHighload = Gen.WalletInts.subWalletDefaultV3 :=
+  ⟨GenTies.gen_subWalletDefaultV4_eq_V3, GenTies.gen_subWalletDefaultHighload_eq_V3⟩
 /-! ### errors of the blockchain interface, cancellation -/
 
 theorem confirmLoop_all_err (wait seqno : Nat) (ps : List Poll) :
